@@ -80,6 +80,13 @@ claim("C13", "other",
       "The effect census of C12 on the evaluation path (datum, evaluator, filter and tree are only read; reflect mutators only on MakeSlice/MakeMap/Append-rooted values), tree-integrity census, no writer of Evaluator/Filter fields outside the constructors, Filter returns a fresh container (C17 shape imported), Expression() returns the field whose only writer stores CreateEvaluator's expression parameter itself (also the string parsed). Hence no carried state and the next call equals a fresh evaluator's. Not decided: mutation by a user hook.",
       "§4 C13", "effect census + field-write census + def-use check of Expression()")
 
+claim("C19", "other",
+      "Names: every operator constant renders as the documented name (exhaustive, distinct), ALL/ANY, binding forms. Structural induction: every composite ExpressionDump writes an opening line, dumps each Expression field of the receiver exactly once in declaration order with (same writer, same indent, level+1), writes a closing line; every line has a constant format and the strings.Repeat(indent, level[+1]) prefix; the leaf names its operator via String, prints the selector via Selector.String (dotted/slash-joined/empty), and dereferences+quotes the literal only for operators the grammar always builds with one; children non-nil, tree acyclic and immutable => terminates without panic. Does not decide byte-exact layout inside the constant formats.",
+      "§4 C19", "constant-table extraction + structural-induction obligations by symbolic execution of the Dump methods")
+claim("C01", "other",
+      "NARROW: agreement with an independent interpreter on values is NOT decided. Decided structural necessary conditions: every (node type, operator) the parser's actions can produce reaches a real handler in the evaluator; constants/binding modes used by the grammar are declared and set exactly the names the evaluator binds; the tree evaluated is the tree parsed; and the clauses of the statement's semantics hold by the imported rule sets of C02-C07 (listed as shared obligations).",
+      "§4 C01", "producer/consumer exhaustiveness (grammar constant inference vs abstract execution of the dispatcher) + imported rule sets")
+
 def main():
     checks, nas = [], []
     for id in sorted(P):
